@@ -272,7 +272,8 @@ def run_property(prop, tier, seed, level, explanation="", trusted_base=(), worke
         for e in known["findings"]:
             if _match_known(e, prop, key_obj):
                 known_hits.append((e, text))
-                known_instances[0] += payload.get("instances", 1)
+                if "key" not in key_obj:  # only obligation instances are part of the obligation count; component findings never were
+                    known_instances[0] += payload.get("instances", 1)
                 return
         os.makedirs(replay_dir, exist_ok=True)
         h = hashlib.sha256(json.dumps(key_obj, sort_keys=True, default=str).encode()).hexdigest()[:12]
